@@ -72,16 +72,15 @@ def outcomes_for(tier):
 def shards(tier, seed):
     out = []
     outs = outcomes_for(tier)
-    # exhaustive part, sharded by (length, family pattern, first outcome)
-    for L in (1, 2, 3):
-        for fams in itertools.product((0, 1), repeat=L - 1):
-            if L < 3:
-                out.append({"kind": "exh", "fams": [0] + list(fams), "first": None})
-            else:
-                for i in range(len(outs)):
-                    out.append({"kind": "exh", "fams": [0] + list(fams), "first": i})
+    # exhaustive part, sharded by (length, family pattern, group of first outcomes); every shard
+    # is a subprocess, so the quick tier uses few, larger shards
+    group = 3 if tier == "quick" else 1
+    out.append({"kind": "exh", "lists": [[0], [0, 0], [0, 1]], "first": None})
+    for fams in itertools.product((0, 1), repeat=2):
+        for i in range(0, len(outs), group):
+            out.append({"kind": "exh", "lists": [[0] + list(fams)], "first": list(range(i, min(len(outs), i + group)))})
     n4 = 5000 if tier == "quick" else 400000
-    k = 8 if tier == "quick" else 32
+    k = 2 if tier == "quick" else 32
     for j in range(k):
         out.append({"kind": "rand4", "n": n4 // k, "j": j})
     out.append({"kind": "real", "n": 150 if tier == "quick" else 3000})
@@ -92,18 +91,19 @@ def gen_cases(spec):
     tier = spec["tier"]
     if spec["kind"] == "exh":
         outs = outcomes_for(tier)
-        fams = tuple(spec["fams"])
-        L = len(fams)
-        firsts = outs if spec["first"] is None else [outs[spec["first"]]]
         batch = []
-        for first in firsts:
-            for rest in itertools.product(outs, repeat=L - 1):
-                for T in TIMEOUTS[tier]:
-                    for mode in ("faithful", "lazy"):
-                        batch.append((fams, (first,) + rest, T, mode))
-                        if len(batch) >= 250:
-                            yield ("batch", batch)
-                            batch = []
+        for fams in spec["lists"]:
+            fams = tuple(fams)
+            L = len(fams)
+            firsts = outs if spec["first"] is None else [outs[i] for i in spec["first"]]
+            for first in firsts:
+                for rest in itertools.product(outs, repeat=L - 1):
+                    for T in TIMEOUTS[tier]:
+                        for mode in ("faithful", "lazy"):
+                            batch.append((fams, (first,) + rest, T, mode))
+                            if len(batch) >= 250:
+                                yield ("batch", batch)
+                                batch = []
         if batch:
             yield ("batch", batch)
     elif spec["kind"] == "rand4":
@@ -317,7 +317,7 @@ class Harness:
             return  # closed while pending (faithful mode)
         if kind == "S":
             att["state"] = "succeeded"
-            self.events.append(("success", att["i"], self.resolved()))
+            self.events.append(("success", att["i"], self.resolved(), self.loop.time()))
             att["future"].set_result(att["stream"])
         else:
             att["state"] = "failed"
@@ -434,8 +434,15 @@ def judge(spec, h, conn, fut, recs, ctx):
     if h.done_calls > 1:
         ctx.violation("resolve/done-callback-twice", "connector future resolved more than once", wit())
     order = [e for e in h.events]
-    # successes / failures that happened while the connector future was still unsettled
-    succ_order = [e[1] for e in order if e[0] == "success" and not e[2]]
+    # Successes that happened while the connector future was still unsettled.  A connect future
+    # that resolves in the same loop iteration in which the timeout fires (same virtual instant)
+    # is concurrent with it - its done-callback has not run yet - so only successes strictly
+    # earlier than the resolution instant count as "had succeeded before".
+    EPS = 2e-6
+    succ_ev = [e for e in order if e[0] == "success" and not e[2]]
+    succ_order = [e[1] for e in succ_ev]
+    succ_before = [e[1] for e in succ_ev if h.done_at is None or e[3] < h.done_at - EPS]
+    first_tie = [e[1] for e in succ_ev if e[3] <= succ_ev[0][3] + EPS] if succ_ev else []
     # ---- (2) winner is the first success
     if obs[0] == "win":
         att = [a for a in h.attempts if a["stream"] is stream]
@@ -443,14 +450,16 @@ def judge(spec, h, conn, fut, recs, ctx):
             ctx.violation("result/tuple-inconsistent", "(af, addr, stream) of the result do not belong together", wit(result=(af, addr)))
         elif att[0]["state"] != "succeeded":
             ctx.violation("result/attempt-did-not-succeed", "the returned stream's connect attempt had not succeeded", wit(result=addr))
-        elif succ_order and succ_order[0] != addr:
+        elif succ_order and addr not in first_tie:
             ctx.violation("result/not-first-success", "the connector returned a connection other than the first that succeeded",
                           wit(result=addr, first_success=succ_order[0]))
         if stream.closes:
             ctx.violation("leak/returned-stream-closed", "the stream handed to the caller was closed by the connector", wit(result=addr))
     # ---- (3) errors only when justified
     if obs[0] in ("fail", "timeout"):
-        if succ_order:
+        if succ_order and not succ_before:
+            ctx.count("tie_success_concurrent_with_timeout")
+        if succ_before:
             ctx.violation(f"error/{obs[0]}-although-an-attempt-had-succeeded", "connector failed although a connection had succeeded before",
                           wit())
         if obs[0] == "fail":
